@@ -397,6 +397,95 @@ def explore_graph(chunk):
     return agg
 
 
+# ---- bundled modules: one evaluation per interpreter -------------------------
+BUNDLED_FORMS = ["require {M}", "require {M} as X{k}", "require {M} unqualified",
+                 "require {M} import [{f} as y{k}]"]
+_COUNTS = {}
+
+
+def _count_parses():
+    """owns the one place where module source becomes code: every
+    parse_script call with a module file name is counted per file"""
+    P = core.ckl.parser
+    if getattr(P.parse_script, "_c11", False):
+        return
+    orig = P.parse_script
+
+    def counted(src, fname="{}", *a, **k):
+        if str(fname).startswith("mod:"):
+            key = str(fname).lower()
+            _COUNTS[key] = _COUNTS.get(key, 0) + 1
+        return orig(src, fname, *a, **k)
+    counted._c11 = True
+    P.parse_script = counted
+
+
+def bundled_modules():
+    it = core.Session().interp
+    return sorted(m.value for m in
+                  it.base_environment.get("checkerlang_modules").value)
+
+
+_PUB = {}
+
+
+def first_public(mod):
+    """name of one public function of the module (asked of a separate
+    interpreter, so that the probe is not part of the explored sequence)"""
+    if mod not in _PUB:
+        sx = core.Session(secure=True, legacy=False)
+        o = core.outcome_raw(lambda: sx.interp.interpret(
+            "require %s as PROBE; PROBE" % mod, "probe"))
+        pub = sorted(k for k, v in o[1].value.items()
+                     if isinstance(v, core.ckl.values.ValueFunc)) \
+            if o[0] == "value" else []
+        _PUB[mod] = pub[0] if pub else None
+    return _PUB[mod]
+
+
+def run_bundled(mod, legacy, seq):
+    """-> (evaluation count per module file, pairwise sharing verdicts) for
+    one fresh interpreter and one sequence of (form, spelling) requires"""
+    _count_parses()
+    _COUNTS.clear()
+    member = first_public(mod)
+    _COUNTS.clear()
+    sx = core.Session(secure=True, legacy=legacy)
+    obs = []
+    for k, (form, spell) in enumerate(seq):
+        name = {"canon": mod, "lower": mod.lower(),
+                "upper": mod.upper()}[spell]
+        if member is None and "{f}" in BUNDLED_FORMS[form]:
+            continue
+        src = BUNDLED_FORMS[form].format(M=name, k=k, f=member)
+        o = sx.run(src, "importer", fuel=2000000, wall=20.0)
+        obs.append((src, o[0]))
+    return dict(_COUNTS), obs
+
+
+def explore_bundled(chunk):
+    """every bundled module x interpreter flavour x sequence of require
+    forms and name spellings: no module file is evaluated twice in one
+    interpreter (the interpreter's own start-up requires included)"""
+    agg = core.Agg()
+    for mod, legacy, seq in chunk["cases"]:
+        counts, obs = run_bundled(mod, legacy, seq)
+        agg.count("steps")
+        agg.cls(("bundled", mod, tuple(o[1] for o in obs)))
+        twice = sorted(k for k, n in counts.items() if n > 1)
+        if twice:
+            agg.violation(
+                {"what": "bundled-module-evaluated-twice", "file": twice[0]},
+                {"bundled": mod, "legacy": legacy,
+                 "seq": [list(x) for x in seq]},
+                "every module file evaluated at most once per interpreter",
+                {"counts": {k: counts[k] for k in twice},
+                 "requires": [list(o) for o in obs]},
+                size=len(seq) * 10 + len(mod))
+    agg.count("cases")
+    return agg
+
+
 def all_graphs(n, self_loops=True):
     edges = [(i, j) for i in range(n) for j in range(n)
              if self_loops or i != j]
@@ -423,6 +512,12 @@ def families():
 
 
 def replay(case, verbose=False):
+    if "bundled" in case:
+        counts, obs = run_bundled(case["bundled"], case["legacy"],
+                                  [tuple(x) for x in case["seq"]])
+        if verbose:
+            print(obs, counts)
+        return any(n > 1 for n in counts.values())
     graph = tuple(tuple(x) for x in case["graph"])
     write_graph(graph)
     ex = Importer(graph, list(range(len(graph))))
@@ -477,6 +572,20 @@ def main(tier, seed):
         jobs.append({"graphs": [it]})
     agg = core.pmap(explore_graph, jobs)
     agg.n["graphs"] = len(plan)
+    mods = bundled_modules()
+    if tier == "quick":
+        steps = [(f, sp) for f in (0, 2) for sp in ("canon", "lower")]
+        flavours = [False]
+    else:
+        steps = [(f, sp) for f in range(len(BUNDLED_FORMS))
+                 for sp in ("canon", "lower", "upper")]
+        flavours = [False, True]
+    bcases = [(m, lg, seq) for m in mods for lg in flavours
+              for seq in [(a,) for a in steps] +
+              [(a, b) for a in steps for b in steps]]
+    agg.merge(core.pmap(explore_bundled,
+                        [{"cases": c} for c in
+                         core.chunked(bcases, core.NPROC * 2)]))
     core.finish(
         PID, tier, seed, agg, t0,
         rule=(f"{len(plan)} (graph, depth, importer targets) plans: all "
@@ -491,7 +600,11 @@ def main(tier, seed):
               f"probe, require inside a function, require through a "
               f"persistent and a fresh caller-supplied environment) + "
               f"importer definition; "
-              f"all histories up to the plan's depth, one fork per step"),
+              f"all histories up to the plan's depth, one fork per step; "
+              f"bundled modules: {len(mods)} modules x {len(flavours)} "
+              f"interpreter flavour(s) x all sequences of <= 2 requires over "
+              f"{len(steps)} (form, name spelling) steps, module file "
+              f"evaluations counted at the parser seam"),
         exhaustive=True,
         assumptions=["module files live in $HOME/.ckl/modules of a scratch "
                      "HOME", "two modules with one base name in different "
